@@ -50,6 +50,14 @@ func (m *ModelServer) ListConsumables(_ context.Context, request *traits.ListCon
 		nextIndex = sort.Search(len(sortedItems), func(i int) bool {
 			return sortedItems[i].Name > lastKey
 		})
+		// the listing is in the collection's order, which an id interceptor can make differ from the order of the
+		// ids themselves: carry on right after the item the last page ended with whenever it is still there
+		for i, item := range sortedItems {
+			if item.Name == lastKey {
+				nextIndex = i + 1
+				break
+			}
+		}
 	}
 
 	result := &traits.ListConsumablesResponse{
@@ -134,6 +142,14 @@ func (m *ModelServer) ListInventory(_ context.Context, request *traits.ListInven
 		nextIndex = sort.Search(len(sortedItems), func(i int) bool {
 			return sortedItems[i].Consumable > lastKey
 		})
+		// the listing is in the collection's order, which an id interceptor can make differ from the order of the
+		// ids themselves: carry on right after the item the last page ended with whenever it is still there
+		for i, item := range sortedItems {
+			if item.Consumable == lastKey {
+				nextIndex = i + 1
+				break
+			}
+		}
 	}
 
 	result := &traits.ListInventoryResponse{
